@@ -907,7 +907,7 @@ def _corr_coupled(ctx, drv):
 def _partc_cases(ctx, rng):
     tol = 0.005
     near = [0.0, tol, -tol, float(np.nextafter(tol, 0)), float(np.nextafter(tol, 1)), -float(np.nextafter(tol, 0)),
-            -float(np.nextafter(tol, 1)), 0.0049, -0.0049, 0.0051, 1e-9, -1e-12]
+            -float(np.nextafter(tol, 1)), 0.0049, -0.0049, 0.0051, 1e-4, -2e-4]
     out = []
     for _ in range(ctx.pick(400, 4000)):
         n = int(rng.integers(2, 7))
@@ -935,9 +935,16 @@ def _partc_cases(ctx, rng):
             else:
                 X[j, i] = float(rng.choice([1.0, -1.0, 0.006, -0.006]))
         off = ~np.eye(nr, dtype=bool)
-        if not (np.any(K[off]) or np.any(B[off])):
-            a, b_ = (0, 1) if nr > 1 else (0, 0)
-            K[a, b_] = 1e-9  # keep the system coupled (otherwise the uncoupled test `abs(k) < tol` applies)
+
+        def diagonal(X):
+            # the documented coupling test (ytools.isdiag on the full matrices, rf rows included: off-diagonal
+            # <= 1e-12 * largest diagonal entry; the rf stiffness used below is 1e6)
+            return np.abs(X[off]).max() <= 1e-12 * max(np.abs(np.diag(X)).max(), 1e6 if rf else 0.0)
+
+        if diagonal(K) and diagonal(B):
+            # keep the system coupled (otherwise the uncoupled test `abs(k) < tol` applies): an off-diagonal stiffness
+            # entry below the rigid-body tolerance but far above the coupling tolerance
+            K[0, 1] = 0.004 if (small[0] or small[1]) else 1.0
         out.append((n, rf, K, B))
     return out
 
